@@ -45,7 +45,8 @@ def run_profiles(prop, tier, profiles, runs_quick, runs_thorough, ops, verdict, 
     runs = runs_thorough if tier == "thorough" else runs_quick
     totals = {"runs": 0, "accepted": 0, "rejected": 0, "events_checked": 0, "mutations": 0, "mutations_failed": 0,
               "transactions": 0, "transactions_rolled_back": 0, "reads": 0, "maintenance_ops": 0,
-              "distinct_mutation_events": 0, "died": 0, "tlc_wall": 0.0, "per_profile": {}}
+              "distinct_mutation_events": 0, "died": 0, "tlc_wall": 0.0, "per_profile": {},
+              "searches": 0, "searches_nontrivial": 0}
     samples = []
     for prof in profiles:
         pw = os.path.join(work, prof)
@@ -61,7 +62,8 @@ def run_profiles(prop, tier, profiles, runs_quick, runs_thorough, ops, verdict, 
         acc, rej, checked, wall = vlib.validate_runs(module, cfg, trace, pw, timeout=1800, xmx="6g",
                                                      tag="%s_%s" % (prop.lower(), prof))
         s = vlib.sum_keys(summs, ["mutations", "mutations_failed", "transactions", "transactions_rolled_back",
-                                  "reads", "maintenance_ops", "distinct_mutation_events", "programs"])
+                                  "reads", "maintenance_ops", "distinct_mutation_events", "programs",
+                                  "searches", "searches_nontrivial"])
         log("[%s] profile=%s runs=%d accepted=%d rejected=%d events=%d died=%d tlc=%.0fs %s" %
             (prop, prof, s["programs"] + len(died), acc, len(rej), checked, len(died), wall,
              {k: s[k] for k in ("mutations", "transactions", "reads", "maintenance_ops")}))
@@ -72,7 +74,7 @@ def run_profiles(prop, tier, profiles, runs_quick, runs_thorough, ops, verdict, 
         totals["died"] += len(died)
         totals["tlc_wall"] += wall
         for k in ("mutations", "mutations_failed", "transactions", "transactions_rolled_back", "reads",
-                  "maintenance_ops", "distinct_mutation_events"):
+                  "maintenance_ops", "distinct_mutation_events", "searches", "searches_nontrivial"):
             totals[k] += s[k]
         totals["per_profile"][prof] = {"accepted": acc, "rejected": len(rej), "events": checked}
         for x in rej:
@@ -102,6 +104,7 @@ def evidence(prop, tier, totals, t0, verdict, level="model_checking", mc=None, a
         "mutations": totals["mutations"], "mutations_failed": totals["mutations_failed"],
         "transactions": totals["transactions"], "transactions_rolled_back": totals["transactions_rolled_back"],
         "reads": totals["reads"], "maintenance_ops": totals["maintenance_ops"],
+        "searches": totals["searches"], "searches_with_more_than_one_result": totals["searches_nontrivial"],
         "per_profile": totals["per_profile"], "exhaustive": False,
     }
     if mc:
